@@ -516,15 +516,18 @@ func (it *Interp) allocSize(n Int, signed bool, site string) int {
 	}
 	if w >= 64 || uint64(it.allocBudg) < uint64(1)<<uint(w) {
 		// ask for a really large size first, so that the native replay of a counterexample fails for certain
-		huge := uint64(1) << 40
-		if (w >= 64 || huge < uint64(1)<<uint(w)) && huge > uint64(it.allocBudg) && it.label(allocLabel, "alloc").Cex == nil {
-			it.sol.SyncPC(it.pc)
-			if r := it.sol.CheckWith(it.ctx.Cmp("bvugt", n.T, it.ctx.BV(w, huge))); r == sym.Sat {
-				ls := it.label(allocLabel, "alloc")
-				ls.Checked++
-				ls.Cex = &Cex{Label: allocLabel, Kind: "alloc", Detail: fmt.Sprintf("allocation size governed by unchecked input can exceed 2^40 elements (%s)", site), Vector: it.modelVector(), Where: it.where(), PathNo: it.pathNo}
+		// (2^40 first; then 2^33, which is still above the address space limit of the isolated native replay)
+		for _, sh := range []uint{40, 33} {
+			huge := uint64(1) << sh
+			if (w >= 64 || huge < uint64(1)<<uint(w)) && huge > uint64(it.allocBudg) && it.label(allocLabel, "alloc").Cex == nil {
+				it.sol.SyncPC(it.pc)
+				if r := it.sol.CheckWith(it.ctx.Cmp("bvugt", n.T, it.ctx.BV(w, huge))); r == sym.Sat {
+					ls := it.label(allocLabel, "alloc")
+					ls.Checked++
+					ls.Cex = &Cex{Label: allocLabel, Kind: "alloc", Detail: fmt.Sprintf("allocation size governed by unchecked input can exceed 2^%d elements (%s)", sh, site), Vector: it.modelVector(), Where: it.where(), PathNo: it.pathNo}
+				}
+				it.sol.ReleaseModel()
 			}
-			it.sol.ReleaseModel()
 		}
 		it.oblige(it.fromBTerm(it.ctx.Cmp("bvule", n.T, it.ctx.BV(w, uint64(it.allocBudg)))), allocLabel, "alloc",
 			fmt.Sprintf("allocation size governed by unchecked input can exceed %d elements (%s)", it.allocBudg, site))
